@@ -40,14 +40,15 @@ func VerifC09_Store() {
 		}
 		st.Close()
 	case 3: // record value corrupted / truncated
+		garbage := [][]byte{{}, {0x30}, {0xEE}, {0xEE, 0xFF}}[verifrt.Choose(4)] // truncated to 0 / 1 byte, wrong index
 		if disk {
 			for i := range verifrt.Disk["/work/id"].KV {
-				verifrt.Disk["/work/id"].KV[i].V = []byte{0x30}
+				verifrt.Disk["/work/id"].KV[i].V = garbage
 			}
 		} else {
 			ms := st.(*MapStore)
 			for k := range ms.Map {
-				ms.Map[k] = []byte{0x30}
+				ms.Map[k] = garbage
 			}
 		}
 	}
